@@ -24,6 +24,7 @@ const (
 	kUtf16Final    = "utf16-final-line-break"  // new: the appended line break is not transcoded
 	kJsonBackslash = "json-trailing-backslash" // new: go-text's JSON scanner ends a string at \\" one quote late
 	kJsonlCR       = "jsonl-cr-line-break"     // new: JSON Lines written with --line-break CR: the reader splits on LF only
+	kFixedUtf16    = "fixed-utf16-padding"     // new: fixed-length padding is counted in bytes but written as pad characters (2 bytes each in UTF-16)
 )
 
 // size in bytes of s in the given encoding (what go-text's ByteSize computes)
@@ -234,6 +235,12 @@ func runE2E(spec *e2eSpec) e2eResult {
 			res.writeErr = fmt.Sprintf("exit %d: %s", r.Code, strings.TrimSpace(r.Stderr))
 			return res
 		}
+		if _, err := os.Stat(sc.Path(outName)); err != nil {
+			// lib/action/run.go removes an --out file that stayed empty: an absent file is the empty output
+			if err := os.WriteFile(sc.Path(outName), nil, 0644); err != nil {
+				panic(err)
+			}
+		}
 	}
 	if spec.path == "commit" {
 		// a second process updates the existing file; the dialect now comes from the file itself
@@ -251,6 +258,10 @@ func runE2E(spec *e2eSpec) e2eResult {
 		res.log = append(res.log, "csvq "+strings.Join(a, " "))
 		if r.Code != 0 || r.TimedOut {
 			res.writeErr = fmt.Sprintf("update: exit %d: %s", r.Code, strings.TrimSpace(r.Stderr))
+			if b, err := os.ReadFile(sc.Path(outName)); err == nil && spec.enc == "UTF8" && utf8.Valid(b) {
+				s := string(b) // the file as the failed update left it
+				res.fileText = &s
+			}
 			return res
 		}
 	}
@@ -424,6 +435,45 @@ func e2eDefects(spec *e2eSpec, repaired bool) []string {
 	if strings.HasPrefix(spec.enc, "UTF16") && !spec.strip && spec.format != "JSONL" {
 		tags = append(tags, kUtf16Final)
 	}
+	if strings.HasPrefix(spec.enc, "UTF16") && spec.format == "FIXED" {
+		// any field shorter than its column is padded
+		w := make([]int, len(spec.hdr))
+		sizes := [][]int{}
+		if !spec.noHeader {
+			hs := make([]int, len(spec.hdr))
+			for j, h := range spec.hdr {
+				hs[j] = encByteSize(h, spec.enc)
+			}
+			sizes = append(sizes, hs)
+		}
+		for _, r := range all {
+			rs := make([]int, len(r))
+			for j, c := range r {
+				if c != nil {
+					rs[j] = encByteSize(*c, spec.enc)
+				}
+			}
+			sizes = append(sizes, rs)
+		}
+		for _, rs := range sizes {
+			for j, n := range rs {
+				if n > w[j] {
+					w[j] = n
+				}
+			}
+		}
+		padded := false
+		for _, rs := range sizes {
+			for j, n := range rs {
+				if n < w[j] || w[j] == 0 {
+					padded = true
+				}
+			}
+		}
+		if padded {
+			tags = append(tags, kFixedUtf16)
+		}
+	}
 	return tags
 }
 
@@ -447,9 +497,9 @@ func (c *c02Run) endToEnd(tier string) {
 		}
 		specs = append(specs, s)
 	}
-	reps := 1
+	reps := 3
 	if tier == "thorough" {
-		reps = 6
+		reps = 12
 	}
 	for rep := 0; rep < reps; rep++ {
 		// the full grid: six formats x line breaks x enclose-all x without-header x strip; the path rotates
@@ -477,7 +527,7 @@ func (c *c02Run) endToEnd(tier string) {
 		for _, enc := range []string{"SJIS", "UTF16", "UTF16LE", "UTF16BEM", "UTF8M"} {
 			for _, f := range []string{"CSV", "TSV", "LTSV", "FIXED"} {
 				k++
-				add(&e2eSpec{format: f, path: paths[k%2], lb: c02LBs[k%3], strip: k%3 == 0, delim: ',', enc: enc, explicit: true, stream: "e2e-encoding"}, 0)
+				add(&e2eSpec{format: f, path: paths[r.Intn(3)], lb: c02LBs[r.Intn(3)], strip: r.Intn(2) == 0, delim: ',', enc: enc, explicit: true, stream: "e2e-encoding"}, 0)
 			}
 		}
 	}
@@ -518,17 +568,32 @@ func (c *c02Run) endToEnd(tier string) {
 		}
 		body["re_imported"] = after.show()
 		ebytes := "None"
-		if res.fileText != nil && (s.format == "CSV" || s.format == "TSV" || s.format == "LTSV") {
+		textual := s.format == "CSV" || s.format == "TSV" || s.format == "LTSV"
+		if res.fileText != nil && textual {
 			ebytes = "(Some " + coqStr(*res.fileText) + ")"
 			body["file"] = *res.fileText
+		}
+		ecmp := textual && s.enc == "UTF8"
+		var texts []string
+		texts = append(texts, s.hdr...)
+		for _, r := range all {
+			for _, c := range r {
+				if c != nil {
+					texts = append(texts, *c)
+				}
+			}
+		}
+		nIns := 0
+		if s.ins != nil {
+			nIns = 1
 		}
 		sid := c.record(id, "end-to-end", s.tags, body)
 		obs := "OErr"
 		if after.err == nil {
 			obs = fmt.Sprintf("(OTab %s None false)", coqTable(after.hdr, after.rows))
 		}
-		c.w.add("ecases:ecase", fmt.Sprintf("mkE %d %d %s %s %s\n   %s\n   %s\n   %s %s %s", id, sid, fm[s.format], coqBool(s.enclose), coqBool(s.noHeader),
-			coqTable(s.hdr, all), obs, ebytes, coqLB(s.lb), coqRune(s.delim)))
+		c.w.add("ecases:ecase", fmt.Sprintf("mkE %d %d %s %s %s\n   %s\n   %s\n   %s %s %s %s %d%%nat %s %s %s", id, sid, fm[s.format], coqBool(s.enclose), coqBool(s.noHeader),
+			coqTable(s.hdr, all), obs, ebytes, coqLB(s.lb), coqRune(s.delim), coqBool(s.strip), nIns, coqBool(c.repaired), c02Letters(texts...), coqBool(ecmp)))
 		c.meta.Distribution["e2e:"+s.format+"/"+s.path]++
 		c.meta.Distribution["e2e-encoding:"+s.enc]++
 		if after.err != nil {
